@@ -361,6 +361,9 @@ pub async fn check_state(fx: &Fixture, exp: &Expectation) -> (Vec<(String, Strin
             if exp.want_idx.name && docs[i].name == docs[j].name {
                 problems.push(("unique".into(), format!("documents {} and {} share the unique name {:?}", docs[i]._id, docs[j]._id, docs[i].name)));
             }
+            if exp.want_idx.age_opt && docs[i].age == docs[j].age && docs[i].opt == docs[j].opt {
+                problems.push(("unique".into(), format!("documents {} and {} share the multi-field tuple (age, opt)", docs[i]._id, docs[j]._id)));
+            }
             if exp.want_idx.codes && docs[i].codes.iter().any(|c| docs[j].codes.contains(c)) {
                 problems.push(("unique".into(), format!("documents {} and {} share a unique code", docs[i]._id, docs[j]._id)));
             }
